@@ -30,13 +30,15 @@ def envValue (env : Env) (k : Bytes) : Option Bytes := (env.lookup k).filter val
 /-- the default of a variable, from the regenerated `set_default_values` table -/
 def defaultOf (k : Bytes) : Option Bytes := Gen.defaults.lookup k
 
-/-- the `--key=value` words a config file stands for (none when absent or unreadable) -/
+/-- the `--key=value` words a config file stands for (none when absent or unreadable: not UTF-8,
+    or — since the repair of F72 — a setting that holds a NUL byte) -/
 def fileWords : Option Bytes → List Bytes
-  | some content => if validUtf8 content then configArgs content else []
+  | some content =>
+    if validUtf8 content && !(configArgs content).any (fun a => a.contains 0) then configArgs content else []
   | none => []
 
-/-- hypothesis of the start-up theorems: no word holds a NUL byte (the operating system
-    guarantees it for argv; a NUL in a config value makes `env::set_var` panic) -/
+/-- hypothesis of the start-up theorems about argv: no word holds a NUL byte (the operating
+    system guarantees it for argv; the words of a config file never do: `fileWords_nulFree`) -/
 def NulFree (words : List Bytes) : Prop := ∀ w ∈ words, (0 : UInt8) ∉ w
 instance (ws : List Bytes) : Decidable (NulFree ws) := by unfold NulFree; infer_instance
 
@@ -151,20 +153,46 @@ private theorem get_foldl {r : FlagRow} (hr : r ∈ Gen.flagTable) (ws : List By
       obtain ⟨p, v⟩ := pv
       by_cases hm : rowMatches p r = true <;> simp [hm, Option.or_assoc]
 
+/-- the words a config file stands for never hold a NUL byte (a file with one is rejected as a whole) -/
+theorem fileWords_nulFree (file : Option Bytes) : NulFree (fileWords file) := by
+  unfold fileWords NulFree
+  cases file with
+  | none => simp
+  | some c =>
+    dsimp only
+    split
+    · rename_i h
+      simp only [Bool.and_eq_true, Bool.not_eq_true', List.any_eq_false] at h
+      intro w hw h0
+      have := h.2 w hw
+      simp [h0] at this
+    · simp
+
 private theorem overrideFromConfig_eq (file : Option Bytes) (e : Env) :
     overrideFromConfig file e = parseArgsWith Gen.flagTable (fileWords file) e := by
+  have hnf := fileWords_nulFree file
+  rw [parseArgsWith_ok _ _ _ hnf]
   unfold overrideFromConfig fileWords
   cases file with
-  | none => rfl
-  | some c => by_cases h : validUtf8 c = true <;> simp [h, readConfigFile, parseArgsWith]
+  | none => simp
+  | some c =>
+    by_cases h : validUtf8 c = true
+    · by_cases h2 : (configArgs c).any (fun a => a.contains 0) = true
+      · simp only [h, h2, readConfigFile, if_true, Bool.not_true, Bool.and_false, Bool.false_eq_true, if_false, List.foldl_nil]
+      · have h2' : (configArgs c).any (fun a => a.contains 0) = false := by simpa using h2
+        have hn : NulFree (configArgs c) := by
+          have := hnf; simp only [fileWords, h, h2', Bool.not_false, Bool.and_self, if_true] at this; exact this
+        simp only [h, h2', Bool.not_false, Bool.and_self, if_true, readConfigFile, Bool.false_eq_true, if_false]
+        rw [parseArgsWith_ok _ _ _ hn]
+    · simp [h]
 
 /-- start-up as a pure fold, when no word holds a NUL -/
 private theorem startup_ok (env : Env) (file : Option Bytes) (cli : List Bytes)
-    (hf : NulFree (fileWords file)) (hc : NulFree cli) :
+    (hc : NulFree cli) :
     startup env file cli = .ok (cli.foldl (applyArg Gen.flagTable)
       ((fileWords file).foldl (applyArg Gen.flagTable) (setDefaults env))) := by
   unfold startup bootstrap readSystemEnv parseArgs
-  simp only [overrideFromConfig_eq, parseArgsWith_ok _ _ _ hf, parseArgsWith_ok _ _ _ hc]
+  simp only [overrideFromConfig_eq, parseArgsWith_ok _ _ _ (fileWords_nulFree file), parseArgsWith_ok _ _ _ hc]
 
 end helpers
 
@@ -178,11 +206,11 @@ end helpers
       the value of the LAST config-file assignment addressing it, else
       the environment's value (when valid Unicode), else the default. -/
 theorem C12_precedence (r : FlagRow) (hr : r ∈ Gen.flagTable) (env : Env) (file : Option Bytes)
-    (cli : List Bytes) (hf : NulFree (fileWords file)) (hc : NulFree cli) :
+    (cli : List Bytes) (hc : NulFree cli) :
     ∃ e', startup env file cli = .ok e' ∧
       e'.get r.var =
         (lastFor r cli).or ((lastFor r (fileWords file)).or ((envValue env r.var).or (defaultOf r.var))) := by
-  refine ⟨_, startup_ok env file cli hf hc, ?_⟩
+  refine ⟨_, startup_ok env file cli hc, ?_⟩
   rw [get_foldl hr, get_foldl hr]
   have hd := tab_has_default r hr
   cases hl : Gen.defaults.lookup r.var with
@@ -245,13 +273,13 @@ end helpers2
     they say about the other ten settings. -/
 theorem C12_independent (r : FlagRow) (hr : r ∈ Gen.flagTable)
     (env env' : Env) (file file' : Option Bytes) (cli cli' : List Bytes)
-    (hf : NulFree (fileWords file)) (hc : NulFree cli) (hf' : NulFree (fileWords file')) (hc' : NulFree cli')
+    (hc : NulFree cli) (hc' : NulFree cli')
     (h1 : lastFor r cli = lastFor r cli')
     (h2 : lastFor r (fileWords file) = lastFor r (fileWords file'))
     (h3 : envValue env r.var = envValue env' r.var) :
     effective (startup env file cli) r.var = effective (startup env' file' cli') r.var := by
-  obtain ⟨e1, hs1, hg1⟩ := C12_precedence r hr env file cli hf hc
-  obtain ⟨e2, hs2, hg2⟩ := C12_precedence r hr env' file' cli' hf' hc'
+  obtain ⟨e1, hs1, hg1⟩ := C12_precedence r hr env file cli hc
+  obtain ⟨e2, hs2, hg2⟩ := C12_precedence r hr env' file' cli' hc'
   simp only [hs1, hs2, effective, hg1, hg2, h1, h2, h3]
 
 /-- Supplying setting `r` — by a command-line word anywhere in argv, by a config-file
@@ -259,7 +287,7 @@ theorem C12_independent (r : FlagRow) (hr : r ∈ Gen.flagTable)
     effective value of another setting `r'`. -/
 theorem C12_independent_supply (r r' : FlagRow) (hr : r ∈ Gen.flagTable) (hr' : r' ∈ Gen.flagTable)
     (hne : r ≠ r') (env : Env) (file : Option Bytes) (cli : List Bytes)
-    (hf : NulFree (fileWords file)) (hc : NulFree cli) :
+    (hc : NulFree cli) :
     -- a command-line word addressing r, inserted anywhere
     (∀ a b w, cli = a ++ w :: b → (flagValue r w).isSome = true →
         effective (startup env file (a ++ w :: b)) r'.var = effective (startup env file (a ++ b)) r'.var) ∧
@@ -272,15 +300,14 @@ theorem C12_independent_supply (r r' : FlagRow) (hr : r ∈ Gen.flagTable) (hr' 
   · intro a b w hcli hw
     have hnone := flagValue_other hr hr' hne hw
     have hc1 : NulFree (a ++ w :: b) := hcli ▸ hc
-    exact C12_independent r' hr' env env file file _ _ hf hc1 hf (nulFree_remove hc1)
+    exact C12_independent r' hr' env env file file _ _ hc1 (nulFree_remove hc1)
       (lastFor_insert hnone a b) rfl rfl
   · intro file0 a b w hfw hfw0 hw
     have hnone := flagValue_other hr hr' hne hw
-    have hf0 : NulFree (fileWords file0) := by rw [hfw0]; exact nulFree_remove (hfw ▸ hf)
-    refine C12_independent r' hr' env env file file0 cli cli hf hc hf0 hc rfl ?_ rfl
+    refine C12_independent r' hr' env env file file0 cli cli hc hc rfl ?_ rfl
     rw [hfw, hfw0]; exact lastFor_insert hnone a b
   · intro v
-    refine C12_independent r' hr' _ env file file cli cli hf hc hf hc rfl rfl ?_
+    refine C12_independent r' hr' _ env file file cli cli hc hc rfl rfl ?_
     have : ((r'.var == r.var) = false) := by simpa using var_ne hr hr' hne
     simp [envValue, Env.set, List.lookup, this]
 
@@ -740,6 +767,7 @@ theorem C12_spellings (r : FlagRow) (hr : r ∈ Gen.flagTable) (v : Bytes) (hv :
     rw [C12_toml _ none (by intro ib hib; simp at hib; rw [hib]; exact hok) (by simp)]
     simp only [List.map_cons, List.map_nil, Option.toList, List.append_nil, wordsOf, List.isEmpty_nil,
       if_true, List.nil_append, hk, hval]
+    rw [if_neg (by simp [hn.2, hv])]
     exact one_word hr _ v e (flagValue_long hr v) (by simp [hn.2, hv])
   · intro a i i1 i2 tr name c hokt hne hok hk hval
     unfold readConfigFile
@@ -753,9 +781,10 @@ theorem C12_spellings (r : FlagRow) (hr : r ∈ Gen.flagTable) (v : Bytes) (hv :
     simp only [List.map_cons, List.map_nil, Option.toList, List.append_nil, wordsOf, hemp, hval]
     have : name ++ [45] ++ a.key = r.long := by simpa using hk
     simp only [Bool.false_eq_true, if_false, this]
+    rw [if_neg (by simp [hn.2, hv])]
     exact one_word hr _ v e (flagValue_long hr v) (by simp [hn.2, hv])
   · intro hu
-    obtain ⟨e', hs, hg⟩ := C12_precedence r hr [(r.var, v)] none [] (by simp [NulFree, fileWords]) (by simp [NulFree])
+    obtain ⟨e', hs, hg⟩ := C12_precedence r hr [(r.var, v)] none [] (by simp [NulFree])
     simp [hs, effective, hg, lastFor, fileWords, envValue, List.lookup, hu, Option.filter]
 
 /-- The documented spellings, re-extracted from the repository's documentation on every run:
@@ -799,9 +828,11 @@ theorem C12_toml_nbsp_violated :
     effective (readConfigFile [112, 111, 114, 116, 32, 61, 32, 49, 194, 160, 10] []) Gen.portVar = some [49, 0xC2, 0xA0] ∧
     effective (readConfigFile [112, 111, 114, 116, 32, 61, 32, 49, 194, 160, 35, 32, 99, 10] []) Gen.portVar = some [49] := by decide +kernel
 
-/-- a NUL byte in a config value: start-up panics inside `std::env::set_var` -/
-theorem C12_precedence_nul_violated :
-    startup [] (some [105, 112, 32, 61, 32, 34, 0, 34, 10]) [] = .panic "std:env::set_var" ∧ ¬ NulFree (fileWords (some [105, 112, 32, 61, 32, 34, 0, 34, 10])) := by
+/-- regression F72 (a NUL byte in a config value made start-up panic inside `std::env::set_var`):
+    the file `ip = "␀"` + `port = 1` is rejected as a whole, start-up completes with the defaults -/
+example :
+    fileWords (some [105, 112, 32, 61, 32, 34, 0, 34, 10, 112, 111, 114, 116, 32, 61, 32, 49, 10]) = [] ∧
+    effective (startup [] (some [105, 112, 32, 61, 32, 34, 0, 34, 10, 112, 111, 114, 116, 32, 61, 32, 49, 10]) []) Gen.portVar = defaultOf Gen.portVar := by
   decide +kernel
 
 /-! ## the hypotheses are satisfiable by non-trivial inputs -/
